@@ -18,6 +18,11 @@ func addSQLFeatures(g *gen) {
 		// most anonymous containers become named declarations
 		for k := range s.Fields {
 			f := &s.Fields[k]
+			// a column of an ID type is a foreign key to the table the type names: sub.SubID names
+			// a table the sub package does not have (not a valid model) — use a plain integer
+			if f.T.K == "ref" && f.T.Name == "SubID" {
+				f.T = Basic("int64")
+			}
 			if (f.T.K == "slice" || f.T.K == "array" || f.T.K == "map") && !(f.T.K == "slice" && f.T.E.K == "basic" && f.T.E.B == "byte") && g.chance(0.85) {
 				name := g.uniq("C")
 				g.lists = append(g.lists, &Decl{Kind: "named", Name: name, Under: f.T})
